@@ -246,6 +246,30 @@ pub fn c10_cell(spec: &Value) -> Value {
             }
             acc.c.samples.push(json!({"family": "long", "unit": u, "lengths": "0..=300 characters, offset 0/1, 9 packet shapes"}));
         }
+        "manyopts" => {
+            // n well-formed options, then one whose value is not numeric / whose name lacks a value / nothing: for every n
+            let names: [&[u8]; 4] = [b"blksize", b"timeout", b"tsize", b"windowsize"];
+            for n in (0..=70usize).chain([100, 300]) {
+                for op in [1u8, 2, 6] {
+                    let mut base: Vec<u8> = vec![0, op];
+                    if op != 6 {
+                        base.extend_from_slice(b"f\0octet\0");
+                    }
+                    for i in 0..n {
+                        base.extend_from_slice(names[i % 4]);
+                        base.push(0);
+                        base.extend_from_slice(b"8");
+                        base.push(0);
+                    }
+                    acc.one(&base, "manyopts");
+                    acc.one(&[&base[..], b"blksize\0abc\0"].concat(), "manyopts");
+                    acc.one(&[&base[..], b"timeout\0"].concat(), "manyopts");
+                    acc.one(&[&base[..], b"tsize\0001"].concat(), "manyopts");
+                    acc.one(&[&base[..], b"x"].concat(), "manyopts");
+                }
+            }
+            acc.c.samples.push(json!({"family": "manyopts", "lengths": "0..=70, 100, 300 well-formed options followed by a malformed one"}));
+        }
         other => return json!({"machinery_error": format!("unknown C10 family {other}")}),
     }
     acc.finish()
@@ -272,7 +296,7 @@ fn mutation_corpus() -> Vec<Vec<u8>> {
 
 pub fn c10_check(tier: Tier) -> Outcome {
     let nt = tokens().len();
-    let mut cells = vec![json!({"family": "short"}), json!({"family": "mutations"})];
+    let mut cells = vec![json!({"family": "short"}), json!({"family": "mutations"}), json!({"family": "manyopts"})];
     for u in 0..4 {
         cells.push(json!({"family": "long", "unit": u}));
     }
@@ -305,7 +329,7 @@ pub fn c10_check(tier: Tier) -> Outcome {
     let mut out = Outcome::new("C10", "model_checking");
     out.absorb(res, ncells);
     out.rule = format!(
-        "exhaustive enumeration of datagrams: all strings of <= {free_len} tokens over a {nt}-token alphabet (NUL, opcode bytes 01..07, FF, digits, letter, '-', the four option names in mixed case, 2^64-1, 2^64){}; the empty and all 1-byte datagrams; all 65536 opcode prefixes x 14 tails; every truncation / byte replacement / deletion / NUL insertion of 11 valid encodings; strings of 0..=300 one-, two-, three- and four-byte characters (offset 0/1) in every string position of every packet kind. Each input goes through the real Packet::deserialize under catch_unwind; non-trivial = accepted by the implementation (exercises mandatory-rejection and stability clauses). states = inputs, transitions = decoder calls.",
+        "exhaustive enumeration of datagrams: all strings of <= {free_len} tokens over a {nt}-token alphabet (NUL, opcode bytes 01..07, FF, digits, letter, '-', the four option names in mixed case, 2^64-1, 2^64){}; the empty and all 1-byte datagrams; all 65536 opcode prefixes x 14 tails; every truncation / byte replacement / deletion / NUL insertion of 11 valid encodings; strings of 0..=300 one-, two-, three- and four-byte characters (offset 0/1) in every string position of every packet kind; requests and OACKs with 0..=70, 100, 300 well-formed options followed by a malformed one. Each input goes through the real Packet::deserialize under catch_unwind; non-trivial = accepted by the implementation (exercises mandatory-rejection and stability clauses). states = inputs, transitions = decoder calls.",
         if op_len > 0 { format!(", plus all strings of <= {op_len} tokens that start with a valid opcode") } else { String::new() }
     );
     out.assumptions = vec![
@@ -433,6 +457,23 @@ pub fn c11_cell(spec: &Value) -> Value {
                 }
             }
             c.samples.push(json!({"family": "requests", "write": write, "filename": &filename[..filename.len().min(20)], "modes": ss.len(), "option_lists": lists.len()}));
+        }
+        "manyopts" => {
+            // long option lists (the list is not bounded by any RFC; a request of 60 short options still fits 512 octets)
+            let all = all_options();
+            for n in (0..=70usize).chain([100, 200, 1000]) {
+                let ol: Vec<TransferOption> = (0..n).map(|i| all[(i * 7 + 1) % all.len()].0).collect();
+                let rl: Vec<(Vec<u8>, Vec<u8>)> = (0..n).map(|i| all[(i * 7 + 1) % all.len()].1.clone()).collect();
+                for kind in 0..3 {
+                    let (p, r) = match kind {
+                        0 => (Packet::Rrq { filename: "f".into(), mode: "octet".into(), options: ol.clone() }, RPacket::Rrq { filename: b"f".to_vec(), mode: b"octet".to_vec(), options: rl.clone() }),
+                        1 => (Packet::Wrq { filename: "f".into(), mode: "octet".into(), options: ol.clone() }, RPacket::Wrq { filename: b"f".to_vec(), mode: b"octet".to_vec(), options: rl.clone() }),
+                        _ => (Packet::Oack(ol.clone()), RPacket::Oack(rl.clone())),
+                    };
+                    c11_one(&mut c, &p, &r, &format!("{} with {n} options", ["RRQ", "WRQ", "OACK"][kind]));
+                }
+            }
+            c.samples.push(json!({"family": "manyopts", "lengths": "0..=70, 100, 200, 1000 options"}));
         }
         "oack" => {
             for (ol, rl) in option_lists(maxopts.max(3)) {
@@ -565,7 +606,7 @@ pub fn c11_cell(spec: &Value) -> Value {
 
 pub fn c11_check(tier: Tier) -> Outcome {
     let maxopts = if tier == Tier::Quick { 2 } else { 3 };
-    let mut cells = vec![json!({"family": "enums"}), json!({"family": "error"}), json!({"family": "oack", "maxopts": 3})];
+    let mut cells = vec![json!({"family": "enums"}), json!({"family": "error"}), json!({"family": "oack", "maxopts": 3}), json!({"family": "manyopts"})];
     for w in [false, true] {
         for f in 0..strings().len() {
             cells.push(json!({"family": "requests", "write": w, "filename": f, "maxopts": maxopts}));
@@ -578,7 +619,7 @@ pub fn c11_check(tier: Tier) -> Outcome {
     let res = run_cells("c11", cells, &crate::pool_opts(tier));
     let mut out = Outcome::new("C11", "model_checking");
     out.absorb(res, n);
-    out.rule = format!("grammar-generated Packet values: requests = 5 filenames x 5 modes x all option lists of length <= {maxopts} over 4 option types x 5 values (0,1,65464,2^32,2^64-1) incl. duplicates, for RRQ and WRQ; OACK with all lists <= 3; DATA for all 65536 block numbers x payload lengths (0,1,512; 8 lengths up to 65464 at boundary blocks); ACK for all 65536; ERROR 8 codes x 5 messages; Opcode/ErrorCode conversions over all 65536 values and every named variant against the RFC's number for that name. Oracle: byte-for-byte equality with an independent RFC encoder, decode(encode(p)) == p, independent decoder reads the same fields. Every generated value is non-trivial (distinct by construction).");
+    out.rule = format!("grammar-generated Packet values: requests = 5 filenames x 5 modes x all option lists of length <= {maxopts} over 4 option types x 5 values (0,1,65464,2^32,2^64-1) incl. duplicates, for RRQ and WRQ; OACK with all lists <= 3; RRQ/WRQ/OACK with 0..=70, 100, 200 and 1000 options; DATA for all 65536 block numbers x payload lengths (0,1,512; 8 lengths up to 65464 at boundary blocks); ACK for all 65536; ERROR 8 codes x 5 messages; Opcode/ErrorCode conversions over all 65536 values and every named variant against the RFC's number for that name. Oracle: byte-for-byte equality with an independent RFC encoder, decode(encode(p)) == p, independent decoder reads the same fields. Every generated value is non-trivial (distinct by construction).");
     out.assumptions = vec!["strings range over a representative set (empty, 1 char, ASCII, multi-byte UTF-8 with separators and a space, 600 bytes); they contain no NUL as the statement requires".into()];
     out
 }
